@@ -74,6 +74,37 @@ class C01(E1Prop):
                 for i in range(rng.randint(0, 2)):
                     seq.insert(rng.randrange(3, len(seq)), self.gen.next(w))
                 self.script = seq
+            elif len(dests) >= 2 and rng.random() < 0.3:
+                # story (backport): a fix cut from an old commit of an early
+                # destination lands on a later destination first; the early
+                # destination moves; then the same commits are proposed on
+                # the early destination
+                devs = [d for d in dests if d.startswith('development/')]
+                if len(devs) >= 2:
+                    lo = rng.choice(devs[:-1])
+                    hi = rng.choice(devs[devs.index(lo) + 1:])
+                    seq = [
+                        {'op': 'open_pr', 'actor': 'alice',
+                         'src': 'bugfix/TEST-811', 'dst': hi, 'base': lo,
+                         'from': 'old', 'kind': 'new'},
+                        {'op': 'eval', 'p': 0},
+                        {'op': 'ci_green_all'}, {'op': 'eval', 'p': 0},
+                        {'op': 'ci_green_all'}, {'op': 'deliver_all'},
+                        {'op': 'open_pr', 'actor': 'bob',
+                         'src': 'feature/TEST-812', 'dst': lo,
+                         'kind': 'new'},
+                        {'op': 'eval', 'p': 1},
+                        {'op': 'ci_green_all'}, {'op': 'eval', 'p': 1},
+                        {'op': 'ci_green_all'}, {'op': 'deliver_all'},
+                        {'op': 'open_pr', 'actor': 'alice',
+                         'src': 'bugfix/TEST-813', 'dst': lo,
+                         'same_as': 0},
+                        {'op': 'eval', 'p': 2},
+                        {'op': 'ci_green_all'}, {'op': 'eval', 'p': 2},
+                        {'op': 'ci_green_all'}, {'op': 'deliver_all'}]
+                    for o in seq:
+                        o['dt'] = rng.choice([1, 5, 30])
+                    self.script = seq
         if getattr(self, 'script', None):
             op = self.script.pop(0)
         else:
